@@ -73,6 +73,15 @@ Proof.
   unfold enc_cd in *. cbn [map concat]. rewrite blen_app, IH, blen_le, blen_cons. blia.
 Qed.
 
+(* the cut in the writer's name field (copy into the exactly sized buffer) does nothing up to 65528 bytes *)
+Lemma namefield_whole (name : bytes) : blen name <= 65528 ->
+  firstn (N.to_nat (padded_name_w (blen name))) (name ++ zeros (N.to_nat (padded_name_w (blen name) - blen name)))
+  = name ++ zeros (N.to_nat (padded_name_w (blen name) - blen name)).
+Proof.
+  intros H. apply firstn_all2. rewrite app_length, length_zeros.
+  rewrite padded_name_w_pad8 by auto. pose proof (pad8_ge (blen name)). unfold blen in *. blia.
+Qed.
+
 (* the name field: name and its zero padding *)
 Lemma blen_namepart (name : bytes) : blen name <= 65528 ->
   blen (if 0 <? blen name then name ++ zeros (N.to_nat (padded_name_w (blen name) - blen name)) else [])
@@ -89,6 +98,7 @@ Proof.
   intros Hwf. destruct (wf_filter_inv f Hwf) as (Hid & Hfl & Hnl & Hnz & Hncd & Hcd).
   unfold enc_filter, size_filter. fold (enc_cd (wf_cd f)).
   rewrite (wrap16_small (blen (wf_name f))) by blia.
+  brewrite (namefield_whole (wf_name f) Hnl).
   pose proof (blen_namepart (wf_name f) Hnl) as Lnp. bnorm.
   rewrite !blen_app, !blen_le, blen_enc_cd, Lnp. blia.
 Qed.
@@ -153,6 +163,7 @@ Proof.
   unfold enc_filter, size_filter, proj_filter. cbn [wf_id wf_name wf_flags wf_cd].
   fold (enc_cd cd).
   rewrite (wrap16_small id), (wrap16_small flags), (wrap16_small (blen name)), (wrap16_small (blen cd)) by blia.
+  brewrite (namefield_whole name Hnl).
   pose proof (blen_namepart name Hnl) as Lnp. bnorm.
   set (namepart := if 0 <? blen name then name ++ zeros (N.to_nat (padded_name_w (blen name) - blen name)) else []) in *.
   rewrite <- !app_assoc.
@@ -288,3 +299,26 @@ Example ex_filters_eval :
   dec_pipeline (enc_pipeline (firstn 3 ex_filters)) = Ok (proj_pipeline (firstn 3 ex_filters)) /\
   blen (enc_pipeline ex_filters) = 96.
 Proof. vm_compute. repeat split; reflexivity. Qed.
+
+(* ------------------------------------------------------------------ the name bound of wf_filter is tight
+   A name of 65529 bytes (65528 is covered by the theorem): nameLen + 7 wraps to 0 in uint16, the buffer
+   has no room for the name, copy() writes nothing, and the message carries name length 65529 with no
+   name bytes; the reader refuses it. *)
+Definition long_name_filter : wfilter :=
+  {| wf_id := 1; wf_name := repeat 65 (N.to_nat 65529); wf_flags := 0; wf_cd := [] |}.
+
+Lemma pipeline_name_65529_not_inverted :
+  blen (wf_name long_name_filter) = 65529 /\
+  wf_pipeline [long_name_filter] = false /\
+  enc_pipeline [long_name_filter] = [2; 1; 0; 0; 0; 0; 0; 0; 1; 0; 249; 255; 0; 0; 0; 0] /\
+  dec_pipeline (enc_pipeline [long_name_filter]) = Err.
+Proof. vm_compute. repeat split; reflexivity. Qed.
+
+(* the model's cut name field on over-long names, values observed from the Go encoder (harness c11/filterpipe,
+   names of 65529 and 65537 bytes 'A' with one client value) *)
+Example enc_filter_overlong_names :
+  enc_filter {| wf_id := 1; wf_name := repeat 65 (N.to_nat 65529); wf_flags := 0; wf_cd := [7] |}
+    = [1; 0; 249; 255; 0; 0; 1; 0; 7; 0; 0; 0] /\
+  enc_filter {| wf_id := 1; wf_name := repeat 65 (N.to_nat 65537); wf_flags := 0; wf_cd := [5] |}
+    = [1; 0; 1; 0; 0; 0; 1; 0; 65; 65; 65; 65; 65; 65; 65; 65; 5; 0; 0; 0].
+Proof. vm_compute. split; reflexivity. Qed.
